@@ -50,7 +50,7 @@ func drawDeriver(t *rapid.T, label string, usableOnly bool) (builder, string, ui
 		derivedType = rapid.SampledFrom(derivableTypes).Draw(t, label+"_derived_type")
 	}
 	// DrawUsable also restricts the derived-key parameters to usable ones, so that the keys of the
-	// derived keyset work (and the deriver is not Lossy).
+	// derived keyset work (and the deriver's key format is serializable).
 	s.derived = drawType(t, label+"_derived", derivedType, usableOnly)
 	return s.build, s.derived.Variant, s.derived.ID
 }
@@ -73,7 +73,9 @@ func (s deriverSpec) build(variant string, id uint32) (*Info, error) {
 		return nil, err
 	}
 	i.Key = k
-	i.Lossy = derived.Lossy
+	// SerializeKey embeds the serialized derived-key parameters: it fails when those cannot be
+	// serialized (AES-GCM with non-standard IV / tag size; RSA-PSS is not a derived type).
+	i.NoSerialization = derived.NoSerialization
 	derivable := false
 	for _, d := range derivableTypes {
 		derivable = derivable || d == derived.Type
